@@ -204,8 +204,40 @@ def decPred (f : String) : Cont.Elem → Bool :=
 def renderGroup (keys : List String) (g : List (List PyVal × List Cont.Elem)) : PyVal :=
   .dict (g.map (fun kv => ((if keys.length == 1 then kv.1.headD .none else .tup kv.1), tags kv.2)))
 
+/-- item specs for construction: element specs as in `decElems`, plus `s:<text>` (a str) and `o` (any other object) -/
+def decItems (f : String) : List Cont.Item :=
+  if f.isEmpty then [] else
+  (f.splitOn ";").filterMap (fun e =>
+    match e.splitOn ":" with
+    | ["s", t] => some (Cont.Item.str (decText t))
+    | ["o"] => some Cont.Item.other
+    | _ => match decElems e with
+      | [Cont.Elem.tract t] => some (Cont.Item.tract t)
+      | [Cont.Elem.trs d] => some (Cont.Item.trs d)
+      | _ => Option.none)
+
+/-- a TRSList shows its elements' trs; a TractList their descriptions (with the trs, to see conversions) -/
+def buildTag : Cont.Elem → PyVal
+  | .tract t => .tup [.str (S "Tract"), .str t.trs.trs, .str t.desc]
+  | .trs d => .tup [.str (S "TRS"), .str d.trs]
+
+def renderBuild (r : Except PyErr (List Cont.Elem)) : String :=
+  match r with
+  | .ok l => (PyVal.list (l.map buildTag)).render
+  | .error e => "!" ++ e.name
+
 def handleCont (fs : List String) : Option String :=
   match fs with
+  | ["cont.build", isTrs, how, self, items] =>
+    let b := decBool isTrs
+    let selfL := decElems self
+    let its := decItems items
+    some (match how.splitOn ":" with
+      | ["construct"] => renderBuild (Cont.construct b its)
+      | ["extend"] => renderBuild (Cont.extend b selfL its)
+      | ["append"] => renderBuild (match its with | [x] => Cont.append b selfL x | _ => .error .typeError)
+      | ["insert", i] => renderBuild (match its with | [x] => Cont.insert b selfL i.toNat! x | _ => .error .typeError)
+      | _ => "!badop")
   | ["cont.sort", elems, key, rev] =>
     let (l, e) := Cont.customSort (decElems elems) (decText key) (decBool rev)
     some (match e with
